@@ -203,6 +203,9 @@ func c07Together(c *core.Ctx, fn *an.Fn, backend, tokCanon, valCanon string) {
 		}
 		for i, r := range as.Rhs {
 			rc := fn.Canon(r)
+			if _, isCopy := an.Unparen(r).(*ast.Ident); isCopy {
+				continue // a copy of a local (e.g. an argument bound to a parameter) reads nothing from the response
+			}
 			if len(as.Lhs) == len(as.Rhs) {
 				if rc == tokCanon {
 					tokB = append(tokB, g.Locate(as).B)
